@@ -101,6 +101,11 @@ def make_alg(cfg: dict):
     options: cse, graded, wrapper ('identity'|'wraps'|None), symbolcls ('sympy'|None)
     """
     from kingdon import Algebra
+    if cfg.get('derive'):
+        # an algebra derived from another one with dataclasses.replace (as the pinned suite does)
+        import dataclasses
+        base = make_alg({k: v for k, v in cfg.items() if k != 'derive'})
+        return dataclasses.replace(base, **cfg['derive'])
     kw = {}
     for k in ('cse', 'graded'):
         if k in cfg:
